@@ -927,14 +927,35 @@ func TestC17Sim(t *testing.T) {
 		for k := range s.retransAllowed {
 			excused[k[:strings.LastIndex(k, "|")]] = true
 		}
+		// ... and so is sending again after a request carrying the file failed in transit: whether
+		// the receiver then recognises the duplicate is C05's subject
+		// - but only for the version the file had at that time: sending a version again that
+		// the file no longer has is not "sending the changed file again"
+		faultExcused := func(name, hash string, when time.Time) bool {
+			if !s.faultedNames[name] {
+				return false
+			}
+			cur := ""
+			for _, v := range s.versions[name] {
+				if !v.at.After(when) {
+					cur = v.hash
+				}
+			}
+			return cur == hash
+		}
 		inst := map[string]int{} // a name may return to earlier content: each such version counts
 		for name, vs := range s.versions {
 			for _, v := range vs {
 				inst[name+"|"+v.hash]++
 			}
 		}
+		lastArrival := map[string]time.Time{}
+		for _, a := range s.w.arrivals {
+			lastArrival[a.Target+"|"+a.MD5] = a.When
+		}
 		for k, n := range cnt {
-			if n > 1 && n > inst[k] && !excused[k[:strings.LastIndex(k, "|")]] {
+			name, hash := k[:strings.LastIndex(k, "|")], k[strings.LastIndex(k, "|")+1:]
+			if n > 1 && n > inst[k] && !excused[name] && !faultExcused(name, hash, lastArrival[k]) {
 				s.viol("C17", "version-delivered-twice", "%s was delivered %d times although no verdict asked for it again", k, n)
 			}
 		}
